@@ -81,13 +81,18 @@ func (l *CompiledLoader) SaveCompiled(engine *Engine, name string) error {
 		return err
 	}
 
-	// Ensure the directory exists
-	if err := os.MkdirAll(l.directory, 0755); err != nil {
+	// The file lives below the loader's directory; a template name with a
+	// directory part ("mail/welcome") gets its sub-directory, a name that
+	// would leave the directory ("../x") is refused
+	filePath := filepath.Join(l.directory, name+l.fileExtension)
+	if rel, err := filepath.Rel(l.directory, filePath); err != nil || rel == ".." || strings.HasPrefix(rel, ".."+string(filepath.Separator)) {
+		return fmt.Errorf("template name '%s' is outside the compiled templates directory", name)
+	}
+	if err := os.MkdirAll(filepath.Dir(filePath), 0755); err != nil {
 		return fmt.Errorf("failed to create directory: %w", err)
 	}
 
 	// Save the compiled template
-	filePath := filepath.Join(l.directory, name+l.fileExtension)
 	if err := os.WriteFile(filePath, data, 0644); err != nil {
 		return fmt.Errorf("failed to write compiled template file: %w", err)
 	}
@@ -136,9 +141,10 @@ func (l *CompiledLoader) LoadAll(engine *Engine) error {
 			continue
 		}
 
-		// Check if it's a compiled template file
-		ext := filepath.Ext(file.Name())
-		if ext == l.fileExtension {
+		// Check if it's a compiled template file (the extension has two dots:
+		// filepath.Ext would only give ".compiled")
+		ext := l.fileExtension
+		if strings.HasSuffix(file.Name(), ext) && len(file.Name()) > len(ext) {
 			// Get the template name (filename without extension)
 			name := file.Name()[:len(file.Name())-len(ext)]
 			LogInfo("Loading compiled template: %s", name)
